@@ -69,8 +69,8 @@ CLAIMED.update({
  'C09': dict(technique='MIR follows/guarded-by/must-pass rules on escape constants and string cutters (BALANCED, CUTTERS incl. copy-all and re-append of a stripped reset), byte-accounting rule on the escape iterator',
     text='Decides that every state-setting escape constant delta emits is followed by a reset on all paths or painted through ansi_term, and that every truncate/pop/grapheme cut in the renderer is guarded so that no escape sequence is split, that the truncation routine copies every escape item of its input on all paths, that a stripped trailing reset is appended again on every path, and that element ranges of the escape iterator account for every text byte.',
     note=RULE_NOTE + ' Balance of the input\'s own sequences and correctness of computed cut positions are not decided.', design='5/C09'),
- 'C12': dict(technique='table agreement over MIR: parser word->attribute table vs printer attribute->word table, positional slot guards, three colour tables, Config field <-> style key, colour-depth provenance at every style/colour parser call, set-only attribute flags in the word loop (ORDER), printed words vs the words the special-decoration extractor consumes unconditionally (RESERVED), plus hash-order lint on the printer',
-    text='Decides the structural round-trip conditions of the style language (every parsed attribute is printed with a word that parses back; foreground/background slots are positional; colour number/variant/name tables agree; each style option feeds the field of the same name; every parser call receives the configured colour depth; attribute words commute; no printed attribute word is one that the decoration pre-pass removes from commit / file / hunk-header style strings).',
+ 'C12': dict(technique='table agreement over MIR: parser word->attribute table vs printer attribute->word table, positional slot guards, three colour tables, Config field <-> style key, colour-depth provenance at every style/colour parser call, set-only attribute flags in the word loop (ORDER), printed words vs the words the special-decoration extractor consumes unconditionally (RESERVED), field coverage of the syntax-highlighter gate (SYNTAX-GATE), plus hash-order lint on the printer',
+    text='Decides the structural round-trip conditions of the style language (every parsed attribute is printed with a word that parses back; foreground/background slots are positional; colour number/variant/name tables agree; each style option feeds the field of the same name; every parser call receives the configured colour depth; attribute words commute; no printed attribute word is one that the decoration pre-pass removes from commit / file / hunk-header style strings; the gate that decides whether the highlighter runs consults every style the edit-inference painter applies, so a `syntax` foreground is never painted without colours).',
     note=RULE_NOTE + ' Palette / hex arithmetic not decided.', design='5/C12'),
  'C13': dict(technique='MIR ordering (reachability between lookups), iterator-type, guarded-by rules on option processing; phase-order rule on gather_features; must-pass rule on the recursive feature gatherer (WALK); who-may-call for raw config accessors; hash-order lint',
     text='Decides main-section-first / features-reversed / custom-before-builtin lookup order, command-line-wins for all option writes and mutable borrows of option fields in set_options, the four-phase feature gathering order, that every named feature has its own section walked for sub-features and flags, --no-gitconfig gating, env overrides before file config, and determinism of option processing.',
@@ -84,10 +84,10 @@ CLAIMED.update({
  'C17': dict(technique='abstract evaluation of the colour-choice function over its finite decision domain (memoised predicates for memo lookups and colour equality), MIR edge rule for the next-colour function, must-call/provenance rules for the memo, regex group participation',
     text='Decides the blame colour table against the specification for every feasible case, the alternative-colour rule, that the memo is updated for every non-repeat, and that the five unwrapped regex groups are mandatory.',
     note=RULE_NOTE + ' Timestamp parsing and padding not decided.', design='5/C17'),
- 'C18': dict(technique='MIR unreachable-from, error-discipline (incl. no partial Write::write), BrokenPipe mapping (function summaries + edge-dominated arms), who-may-call process::exit (incl. nothing exit-capable in run_app while the pager handle is alive), provenance of exit status, pager selection table, ownership rule on the child stdout handle in functions that wait for the child (WAIT-CLOSED)',
+ 'C18': dict(technique='MIR unreachable-from, error-discipline (incl. no partial Write::write), BrokenPipe mapping (function summaries + edge-dominated arms, nothing printing between the failing call and the test), who-may-call process::exit (incl. nothing exit-capable in run_app while the pager handle is alive), provenance of exit status, pager selection table, ownership rule on the child stdout handle in functions that wait for the child (WAIT-CLOSED)',
     text='Decides that the renderer never prints to stdout directly or drops/unwraps output errors, that every io::Error leaving run_app has passed a BrokenPipe->Ok mapping and BrokenPipe arms are silent, exit discipline, status pass-through, the pager selection order, and that the wrapped command\'s stdout handle is moved out of the Child before delta waits for it (so the wait on the broken-pipe path can return).',
     note=RULE_NOTE + ' Delivery of bytes to the pager and signals not decided.', design='5/C18'),
- 'C19': dict(technique='who-may-construct for OSC literals + template check, Element->is_escape table, sibling-arm provenance agreement at hyperlink call sites, provenance of the {line} substitution, display-transformation taint on link targets and on link-text vs fallback-text of Option-returning link helpers',
+ 'C19': dict(technique='who-may-construct for OSC literals + template check, Element->is_escape table, sibling-arm provenance agreement at hyperlink call sites, provenance of the {line} substitution, display-transformation taint (through local helpers) on link targets and on link-text vs fallback-text of Option-returning link helpers',
     text='Decides that links are opened and closed by one template, that OSC elements are never measured, that enabling hyperlinks only wraps the value that would be printed anyway, that the linked line number is the formatter argument, and that no display-only transformation reaches the path a link points at.',
     note=RULE_NOTE + ' Absolute-path and URL template correctness not decided.', design='5/C19'),
 })
